@@ -12,6 +12,7 @@ import (
 	"fmt"
 	"os"
 	"runtime"
+	"runtime/debug"
 	"sort"
 	"strings"
 
@@ -79,9 +80,10 @@ func transitions(rows, cols int, real bool) []Step {
 }
 
 type Case struct {
-	Cfg   Cfg    `json:"state"`
-	Which string `json:"alphabet"`
-	Key   string `json:"key"`
+	Cfg      Cfg    `json:"state"`
+	Which    string `json:"alphabet"`
+	Key      string `json:"key"`
+	Thorough bool   `json:"thorough,omitempty"` // tier of the operand-view menu (operands.go)
 }
 
 var typeIdx = map[string]int{}
@@ -105,13 +107,13 @@ type explorer struct {
 
 func (x *explorer) report(cfg Cfg, which string, fails []failure) {
 	for _, f := range fails {
-		x.c.Violate(f.key, f.what, rank(cfg), Case{cfg, which, f.key})
+		x.c.Violate(f.key, f.what, rank(cfg), Case{cfg, which, f.key, x.c.Thorough()})
 		x.c.Outcome("fail:" + strings.SplitN(f.key, "|", 2)[0])
 	}
 }
 
 // perState runs the whole per-state alphabet on cfg and returns all failures
-func perState(c *vf.Ctx, cfg Cfg, which string) []failure {
+func perState(c *vf.Ctx, cfg Cfg, which string, thorough bool) []failure {
 	var fails []failure
 	w, fs, perr := build(cfg)
 	if fs >= 0 {
@@ -120,7 +122,7 @@ func perState(c *vf.Ctx, cfg Cfg, which string) []failure {
 		}
 		return []failure{{"build|" + cfg.Sto + "|" + cfg.Path[fs].Op, "replaying the path panics: " + perr}}
 	}
-	e := &env{sto: cfg.Sto, typ: cfg.Typ, T: scalarType(cfg.Typ), thorough: c != nil && c.Thorough()}
+	e := &env{sto: cfg.Sto, typ: cfg.Typ, T: scalarType(cfg.Typ), thorough: thorough, state: cfg}
 	hasZero := strings.HasPrefix(cfg.Content, "zp:")
 	f, herr := readsVsModel(cfg)
 	fails = append(fails, f...)
@@ -130,7 +132,7 @@ func perState(c *vf.Ctx, cfg Cfg, which string) []failure {
 	n := int64(1)
 	for _, s := range scenarios(e, w.m.rows, w.m.cols, hasZero, which) {
 		if c != nil {
-			c.Guard(s.name+"|"+cfg.Sto, rank(cfg), Case{cfg, which, s.name})
+			c.Guard(s.name+"|"+cfg.Sto, rank(cfg), Case{cfg, which, s.name, thorough})
 		}
 		fails = append(fails, runScenario(cfg, e, s)...)
 		scCount[s.name]++
@@ -140,7 +142,7 @@ func perState(c *vf.Ctx, cfg Cfg, which string) []failure {
 		if len(cfg.Path) == 0 {
 			fails = append(fails, tipCheck(cfg, false)...)
 			fails = append(fails, asMatrixCheck(cfg.Sto, cfg.Typ, cfg.R, cfg.C)...)
-			n += 2
+			n += 9 // Tip, and {AsMatrix, AsConstMatrix} x {owning vector, three slices}
 		} else if w.m.rows*w.m.cols == cfg.R*cfg.C && w.m.rows > 0 {
 			// a clone of a full-window view owns its whole storage
 			fails = append(fails, tipCheck(cfg, true)...)
@@ -185,9 +187,9 @@ func (x *explorer) explore(base Cfg, which string) {
 		}
 		cfg := base
 		cfg.Path = s.path
-		fails := perState(c, cfg, which)
+		fails := perState(c, cfg, which, c.Thorough())
 		if dumpStates {
-			f2 := perState(nil, cfg, which)
+			f2 := perState(nil, cfg, which, c.Thorough())
 			ks := func(fs []failure) string {
 				m := map[string]bool{}
 				for _, f := range fs {
@@ -246,7 +248,7 @@ func (x *explorer) explore(base Cfg, which string) {
 							cls = ws.class()
 						}
 						key := t.Op + "|" + base.Sto + "|" + cls + "|panic"
-						c.Violate(key, fmt.Sprintf("%v on %v panics: %s", t, src, perr), rank(cfg), Case{cfg, which, key})
+						c.Violate(key, fmt.Sprintf("%v on %v panics: %s", t, src, perr), rank(cfg), Case{cfg, which, key, c.Thorough()})
 						c.Outcome("fail:transition")
 					}
 					continue
@@ -310,6 +312,11 @@ func run(c *vf.Ctx) {
 		for k, v := range scCount {
 			c.Count("scenario:"+k, v)
 		}
+		for k, v := range callMiss {
+			c.Count("reflective-call-not-possible:"+k, v)
+		}
+		c.Count("operand_views_judged_against_owning_counterpart", opPairs)
+		c.Count("operand_vector_slices_judged_against_owning_counterpart", vecPairs)
 	}()
 	x := &explorer{c: c}
 	maxR, maxC := 3, 3
@@ -345,6 +352,9 @@ func run(c *vf.Ctx) {
 }
 
 func main() {
+	// the harness allocates many short-lived small matrices and keeps little alive: a
+	// quarter of the CPU time went into garbage collection at the default setting
+	debug.SetGCPercent(400)
 	for i, t := range typeNames {
 		typeIdx[t] = i
 	}
@@ -360,8 +370,11 @@ func main() {
 		if cfg.Content != "distinct" {
 			which = "zero"
 		}
-		for _, f := range perState(nil, cfg, which) {
+		for _, f := range perState(nil, cfg, which, os.Getenv("C10_THOROUGH") != "") {
 			fmt.Println(f.key, "::", f.what)
+		}
+		for k, v := range callMiss {
+			fmt.Println("reflective call not possible:", k, v)
 		}
 		cleanupScratch()
 		return
@@ -372,12 +385,19 @@ func main() {
 		Rule: "explicit-state BFS to fixpoint over all views of a base RxC matrix reachable by compositions of Slice/ConstSlice/MagicSlice (all 0<=r0<=r1<=rows, 0<=c0<=c1<=cols) and T/MagicT, per storage class and element type; " +
 			"a state is distinct by (implementation header rows/cols/offsets/maxima/transposed/scratch dims/shares-base-storage, model window origin+dims+transposition); in every state the per-state alphabet " +
 			"(reads, Row/Col/Diag, AsVector, iterators, arithmetic as receiver and operand, Equals, permutations, Reset/SetIdentity/Map, printing, export, JSON, clones, Tip) runs on the view and on an independent deep copy; " +
+			"every operation that reads a second matrix (Set, MaddM/MsubM/MmulM/MdivM, MaddS/../MdivS, MdotM, Equals, JointIterator and the concrete-typed variants) additionally runs with the auxiliary matrices taken from a fixed menu of VIEW states of independent parents " +
+			"(twin = the explored view's own path on another base; T; Slice and T.Slice with offsets (1,2)+margins (1,1) and with zero offsets+margins (1,1); sparse: also Slice.T; thorough: all windows {0,1}x{0,2}x{0,1}x{0,1} of Slice/T.Slice/Slice.T, T.T, the other storage class, and all ordered pairs of unequal kinds for the two operands of element-wise operations), " +
+			"in both roles (explored view = receiver with menu views as operands; menu view = receiver with the explored view as operand), Outer/OUTER/MdotV/VdotM with vector operands that are a slice of a longer vector / ConstRow / ConstCol of a matrix view; " +
+			"the reference execution replaces every view by an owning deep copy; afterwards each menu view must equal its owning counterpart and its parent may differ only in the cells the view denotes; " +
+			"zero-pattern bases: twin and T.Slice only (sparse: Set, element-wise, Equals, JointIterator; dense: Equals, JointIterator); " +
 			"non-trivial = state with a non-empty path and a non-empty window",
 		Assume: []string{
 			"sparse T() is a partially sharing copy (code and C10 statement): writes through it are only required to leave the source either unchanged or updated at the denoted cell",
 			"AsVector/AsConstVector element order is unspecified (matrix.go): compared as multisets",
 			"the deep copy has the same storage class and element type as the view, so defects that do not depend on the view header cancel (they belong to C03/C11)",
 			"export overlay accessors are read-only and used for state keys / class names only",
+			"operand views are views of parents that share no storage with the explored view (aliasing between receiver and operands is C08's subject)",
+			"the view state of the auxiliary operands is a fixed menu, not the full view space: the product explored is (all view states) x (menu) in both roles, not (all) x (all)",
 		},
 		Run: run,
 		Replay: func(c *vf.Ctx, raw json.RawMessage) {
@@ -387,7 +407,7 @@ func main() {
 				c.HarnessError(err.Error())
 				return
 			}
-			fails := perState(nil, cs.Cfg, cs.Which)
+			fails := perState(nil, cs.Cfg, cs.Which, cs.Thorough)
 			// a failing transition is the last step of the path
 			if _, fs, perr := build(cs.Cfg); fs >= 0 && fs == len(cs.Cfg.Path)-1 && strings.HasPrefix(cs.Key, cs.Cfg.Path[fs].Op+"|") && strings.HasSuffix(cs.Key, "|panic") {
 				fails = append(fails, failure{cs.Key, "transition panics: " + perr})
